@@ -128,6 +128,16 @@ def check_text(ctx, text, origin, mode):
         report = MAIN_REPORT
         contextualize_report('first = 1\n' * (3 if len(text) % 2 else 0) + 'kept = 2\n')
         call = lambda: verify(text, filename='fragment.py')
+    elif mode == 'verify-given-code-while-a-section-is-active':
+        # the grader checks some text of its own while a later section of the (sectioned) submission is the current one: the
+        # lines of that text are its own
+        from pedal.source.sections import separate_into_sections, next_section
+        report = MAIN_REPORT
+        contextualize_report('first = 1\nprint(first)\n##### Part 1\nsecond = 2\n\n##### Part 2\nthird = 3\n')
+        separate_into_sections(independent=True)
+        next_section()
+        next_section()
+        call = lambda: verify(text)
     elif mode == 'contextualize-under-another-filename':
         # the documented way to name the student's file when the submission is given as text
         report = MAIN_REPORT
@@ -254,7 +264,7 @@ def check_text(ctx, text, origin, mode):
 
 
 MODES = ['verify', 'verify', 'set_source', 'private', 'section', 'set_source-other-filename', 'verify-given-code-and-filename',
-         'verify-after-substitution-restored', 'verify-after-the-submission-was-replaced', 'contextualize-under-another-filename', 'verify-again-after-other-text-failed']
+         'verify-after-substitution-restored', 'verify-after-the-submission-was-replaced', 'contextualize-under-another-filename', 'verify-again-after-other-text-failed', 'verify-given-code-while-a-section-is-active']
 SECTION_PREFIXES = ['a = 1\rb = 2\n', 'a = 1\r\nb = 2\r\n', 'x = 1\r\r\ny = 2\n', '', 'a = 1\n', 'a = 1\nb = 2\n\n', '# page\x0cbreak\nx = "\x0c"\n', 'import math\n\n\n\n',
                     's = "\u2028"\nt = "\x1c\x1d"\n', '\n\n', 'def f():\n    return 1\n']
 
@@ -268,7 +278,7 @@ def run(ctx):
     repo = os.path.realpath(os.environ.get('VERIF_REPO', '/repo'))
     if ctx.shard == 0:
         for t in HOSTILE:
-            for mode in ('verify', 'set_source', 'private', 'section') + (('set_source-other-filename', 'verify-given-code-and-filename', 'verify-after-substitution-restored', 'verify-after-the-submission-was-replaced', 'contextualize-under-another-filename', 'verify-again-after-other-text-failed') if len(t) < 5000 else ()):
+            for mode in ('verify', 'set_source', 'private', 'section') + (('set_source-other-filename', 'verify-given-code-and-filename', 'verify-after-substitution-restored', 'verify-after-the-submission-was-replaced', 'contextualize-under-another-filename', 'verify-again-after-other-text-failed', 'verify-given-code-while-a-section-is-active') if len(t) < 5000 else ()):
                 check_text(ctx, t, 'hostile', mode)
         # NUL / CR / FF / BOM inserted at every position of a short program
         base = 'x = 1\nif x:\n    print("a")\n'
